@@ -924,6 +924,17 @@ func isPureExternal(fn *ssa.Function) bool {
 		return name == "Checksum" || name == "MakeTable" || name == "ChecksumIEEE"
 	case "time":
 		return true
+	case "math/big":
+		// arbitrary-precision integers: these constructors and methods read their operands (incl. byte slices and
+		// strings) and write only the receiver / a new big.Int, whose storage is private to math/big and never
+		// aliases memory the verified code can name. FillBytes and Append* (which write into an argument) and the
+		// Scan/Unmarshal* family are deliberately NOT listed.
+		switch name {
+		case "NewInt", "SetBytes", "SetUint64", "SetInt64", "SetString", "Set", "SetBit", "Add", "Sub", "Mul", "Exp",
+			"Neg", "Abs", "Lsh", "Rsh", "And", "Or", "Xor", "Not", "Cmp", "CmpAbs", "Sign", "BitLen", "Bit", "Bytes",
+			"Uint64", "Int64", "IsUint64", "IsInt64", "String", "Text", "Div", "Mod", "Quo", "Rem":
+			return true
+		}
 	}
 	return false
 }
